@@ -50,6 +50,9 @@ def native(c, lane, total_runs, jobs=8):
         n = 1 + (k % 8)
         procs.append((n, make_spec(rng, n, per_proc, "p%d-" % k)))
         k += 1
+    # one large pool (more workers than any plausible multiple of the CPU count): all of them must be able to run at once
+    big = 300
+    procs.append((big, "big-0 rendezvous %d 0\nbig-1 instant %d %d\nbig-2 rendezvous %d %d\n" % (big, 2 * big, (rng.u64() >> 1) | 1, big, (rng.u64() >> 1) | 1)))
     sigs = set()
     hist = {}
     per_point = {}
@@ -80,6 +83,8 @@ def native(c, lane, total_runs, jobs=8):
                     c.seen("N = 1")
                 if s.n >= 4:
                     c.seen("N >= 4")
+                if s.n >= 256 and s.kind == "rendezvous" and not viol:
+                    c.seen("a rendezvous of 300 workers")
                 if s.kind == "rendezvous" and s.submitted >= s.n and not viol:
                     c.seen("a rendezvous of N")
                 if s.kind == "slow":
@@ -154,11 +159,11 @@ def miri(c, configs, seeds):
 
 
 def run(c):
-    c.rule = ("pool sizes 1..8, task counts 0..4N, behaviours instant / rendezvous of min(N,T) / one long + 3N instant / tasks that panic with 12 kinds of payload (str, long, multi-byte at every alignment, control characters, non-string, empty) followed by a rendezvous; seeded perturbation (nothing / yield / spin / 50-500 us sleep) at the five cfg(rws_verif) hook points "
+    c.rule = ("pool sizes 1..8 and 300, task counts 0..4N, behaviours instant / rendezvous of min(N,T) / one long + 3N instant / tasks that panic with 12 kinds of payload (str, long, multi-byte at every alignment, control characters, non-string, empty) followed by a rendezvous; seeded perturbation (nothing / yield / spin / 50-500 us sleep) at the five cfg(rws_verif) hook points "
               "(Submit, BeforeLock, Locked, Received, Finished); offline checker over the sequence-numbered event log: exactly-once, conservation, per-worker automaton, lock discipline, rendezvous, slow-task isolation, census; "
               "the same small workloads under Miri's randomised scheduler (deadlock / data-race / UB detection, no clocks). Class = interleaving signature (event sequence projected on (worker, point)); non-trivial = N >= 2 and >= 2 tasks overlapped.")
     c.assumptions += ["native no-progress watchdog: 10 s without any event on workloads that normally finish in < 50 ms", "Miri explores the seeds it is given, not all schedules"]
-    for cat in ("N = 1", "N >= 4", "a rendezvous of N", "a slow-task run", ">= 2 overlapping tasks", "a run of tasks that panic with every payload kind"):
+    for cat in ("N = 1", "N >= 4", "a rendezvous of N", "a slow-task run", ">= 2 overlapping tasks", "a run of tasks that panic with every payload kind", "a rendezvous of 300 workers"):
         c.need(cat)
     native(c, "rel", 1500 if c.quick else 150000)
     if c.quick:
